@@ -6,7 +6,7 @@
     (Sni/RpcCorr.v). *)
 From Coq Require Import List NArith ZArith Bool String Permutation.
 From Verif Require Import Lib.Bytes Sni.Wire Sni.WireProofs Sni.WireGen Gen.WireSchema.
-From Verif Require Import Sni.SchedSkel Sni.Rpc Sni.RpcProofs Sni.RpcGen Gen.TransportSkel.
+From Verif Require Import Sni.SchedSkel Sni.Rpc Sni.RpcProofs Sni.RpcGen Sni.RpcFine Gen.TransportSkel.
 Import ListNotations.
 Local Open Scope N_scope.
 
@@ -140,6 +140,38 @@ Proof.
   exact (any_reply_order gen_alloc_max gen_alloc_max_ok two64 two64_pos (N.le_refl two64)).
 Qed.
 Print Assumptions C03_any_reply_order.
+
+(** The window between the send of a request and its recording in [pending]
+    (Sni/RpcFine.v splits [ECall] and [EReply] accordingly): a fine-grained
+    execution computes exactly the coarse model's state on its projected
+    history ... *)
+Theorem C03_fine_refines : forall tr s,
+  fexec gen_alloc_max two64 finit tr = Some s ->
+  coarse s = run (project None [] tr).
+Proof. exact (fine_refines gen_alloc_max two64). Qed.
+Print Assumptions C03_fine_refines.
+
+(** ... and whenever serve looks a reply up, every call whose request has
+    been written to the wire is already recorded: a fast peer's reply is
+    never discarded as "unknown id" because it overtook the bookkeeping. *)
+Theorem C03_reply_never_before_pending : forall tr s s',
+  fexec gen_alloc_max two64 finit tr = Some s ->
+  fstep gen_alloc_max two64 s FServe = Some s' ->
+  forall k, In k (sent s) -> In k (stored s).
+Proof. exact (reply_never_before_pending gen_alloc_max two64). Qed.
+Print Assumptions C03_reply_never_before_pending.
+
+(** The window is real (the reply can sit at the reader with its fetch
+    request queued while the call is not yet recorded); it just cannot be
+    serviced before the store, and then yields the coarse [ECall; EReply]. *)
+Theorem C03_early_reply_waits : forall c f,
+  exists s, fexec gen_alloc_max two64 finit [FSend c; FArrive f] = Some s /\
+            fstep gen_alloc_max two64 s FServe = None /\
+            exists s1 s2, fstep gen_alloc_max two64 s FStore = Some s1 /\
+              fstep gen_alloc_max two64 s1 FServe = Some s2 /\
+              coarse s2 = run [ECall c true; EReply f].
+Proof. exact (early_reply_waits gen_alloc_max two64). Qed.
+Print Assumptions C03_early_reply_waits.
 
 (** The tie to the source: the functions the model was written against have
     the frozen statement skeletons, [pending] is owned by [serve], the type
